@@ -213,7 +213,7 @@ def rule_align_impls(u, rep):
             consumed = None
             for e in evs:
                 if e[0] == "Loop":
-                    body = e[2]
+                    body = tuple(x for x in e[2] if not (isinstance(x, tuple) and x and x[0] == "MayPanic")) if isinstance(e[2], tuple) else e[2]
                     cnt = e[1]
                     if len(body) == 1 and body[0][0] == "W" and body[0][2] == "B" and body[0][3] == C(1):
                         content = body[0][4]
